@@ -6,7 +6,7 @@ the system model with the DeferLogs / ImmediateLogs protocol that RunAggregation
 keep `[Log]` lines off the screen while an aggregator draws; run with `bin/check X02`."""
 import json
 import os
-from vf import Inconclusive, parallel, require_clean, validate_traces, vfj_lines
+from vf import Inconclusive, parallel, require_clean, tlaps, validate_traces, vfj_lines
 
 CLAIM = {
     "text": "LogDefer.tla: the package-level logger with its two sinks (stderr / buffer), the RWMutex with Go's writer "
@@ -15,11 +15,12 @@ CLAIM = {
             "doubled, every printer's lines keep their order, nothing stays behind after the closing ImmediateLogs, calls "
             "terminate, and that the model's own call history satisfies the user-level laws of LogDeferLaws.tla (stderr "
             "order is a linearisation of the calls, deferred lines are invisible until the next ImmediateLogs begins, "
-            "immediate lines are visible at return); four designs (no read lock, no flush, a new buffer at every "
+            "immediate lines are visible at return); the lock protocol itself (LogLock.tla: the controller's critical section "
+            "excludes every printer's, printers inside hold the read lock) is PROVED with TLAPS for any number of printers; four designs (no read lock, no flush, a new buffer at every "
             "DeferLogs, flush after unlock) are refuted. TLC-enumerated call sequences are replayed on the real package "
             "and seeded concurrent histories of the real package are judged by the same laws (LogDefer_Trace).",
     "note": "extra coverage, not a listed property",
-    "technique": "TLA+ model checking (TLC) + model-generated call sequences replayed on the real package + history validation by TLC",
+    "technique": "TLA+ model checking (TLC) + TLAPS proof of the lock protocol + model-generated call sequences replayed on the real package + history validation by TLC",
 }
 LEVEL = "model_checking"
 
@@ -80,6 +81,8 @@ def check(run):
     vectors = vfj_lines(gen.out)
     if len(vectors) < 1000:
         raise Inconclusive("generator produced only %d call sequences" % len(vectors))
+    # ---------------------------------------------------------------- TLAPS: the lock protocol for ANY number of printers
+    run.cov["tlaps_obligations_proved"] = tlaps(run, "LogLock")
     # ---------------------------------------------------------------- B1
     vpath = os.path.join(run.scratch, "x02-vectors.ndjson")
     with open(vpath, "w") as f:
